@@ -109,6 +109,7 @@ def run(run):
             else:
                 run.bad("C10.I1", "span-consumer/%s" % short(p), where(t), "%s does not simply map `span.endorse()` over the spans (endorse closure=%s, only iterated=%s)" % (short(p), ok, only_iter))
         run.floor("C10.I1", "span_consumers", len(lib_users), 1)
+        i3(run)
         # ---------------- I2 grouping
         r = [strip(x) for x in Expr(prog, vsf).returns()]
         ok = len(r) == 1 and r[0][0] == "call" and r[0][1].endswith("merge::Merge::merge_recursive")
@@ -316,3 +317,43 @@ def run(run):
 
 
 run_flow = run
+
+
+PAIRWISE = re.compile(r"::(merge|can_merge|merge_recursive|second_pass_merge|merge_no_check|is_contacting|is_touching\w*|is_adjacent|group_by_contact|is_bounded_in|is_inside|hit|can_fit|enclose\w*)$")
+
+
+def i3(run):
+    """I3 [N]: where the results of the separate spans are put together, they are only concatenated.  The functions
+    that collect the per-span results (get_fragment_spans, endorse_to_fragment_spans, group_nodes_and_fragments, with
+    their closures and the private helpers they call) never apply a relation between two fragments - merge / can_merge /
+    is_contacting / ... - to the combined list: such a step would let a fragment of one sub-diagram join or absorb a
+    fragment of another one that happens to line up with it.  (Tags are matched with enclosing shapes later, in
+    FragmentTree: that interaction is the subject of C16 and needs geometric containment, not adjacency.)"""
+    from ..common import module_region, short, where
+    prog = run.prog
+    roots = [p for p in prog.bodies if re.search(r"cell_buffer::CellBuffer::(get_fragment_spans|endorse_to_fragment_spans|group_nodes_and_fragments)$", p)]
+    if len(roots) != 3:
+        run.missing("C10.I3", "CellBuffer::get_fragment_spans / endorse_to_fragment_spans / group_nodes_and_fragments")
+        return
+    region = set()
+    for r in roots:
+        region.update(module_region(prog, r))
+    n = 0
+    for q in sorted(region):
+        for bid, t in prog.calls(q):
+            name = Program.callee_name(t)
+            if PAIRWISE.search(name) and (t["callee"].get("resolved_krate") or t["callee"].get("krate") or "svgbob") == "svgbob" and name.startswith(("svgbob::", "<svgbob::")):
+                n += 1
+                run.bad("C10.I3", "cross-span-relation/%s" % short(q), where(t),
+                        "%s applies %s to the list that holds the results of all spans: fragments of separate sub-diagrams can now join or absorb each other" % (short(q), short(name)))
+    if not n:
+        run.ok("C10.I3", "the %d functions that put the per-span results together only concatenate them" % len(region), where(prog.bodies[roots[0]]),
+               ", ".join(sorted(short(q) for q in region))[:300])
+    run.floor("C10.I3", "collecting_functions", len(region), 6)
+
+
+FIXTURE_EXPECT = ["cross-span-relation/"]
+
+
+def fixture(run):
+    i3(run)
